@@ -221,14 +221,6 @@ func verifC08Filter(k int, isBad int) {
 		verifAssert(!keep || in, "c08: a rule without a twin stays effective")
 		verifAssert(rs[i] == before[i], "c08: the caller's slice is not modified")
 	}
-	// no rule is returned twice
-	for i := range got {
-		for j := range got {
-			if i < j {
-				verifAssert(got[i] != got[j], "c08: no rule is returned twice")
-			}
-		}
-	}
 	verifReach("c08.filter")
 }
 
